@@ -316,3 +316,14 @@ def c36(ctx):
                 "conjugate; TLC validates n/d = e with no negative exponent or fraction at the top level of n and d, "
                 "re + I*im = e with re and im real at positive assignments, and value preservation of every rewriting")
     simple(ctx, "MC_C36", "Trace_Val", floor=0.3)
+
+
+@plan("C35")
+def c35(ctx):
+    ctx.rule = ("TLC enumerates abs/sign/floor/ceiling/conjugate/log/sqrt of 18 arguments, max/min families, nested "
+                "powers (b^k)^n over 4 bases x 10 inner x 11 outer exponents, logarithms of powers and of perfect powers, "
+                "and reciprocal trigonometric products, each under 12 assumption sets (none, real, positive, negative, "
+                "nonnegative, nonpositive, integer, positive integer, nonzero, rational, and two-symbol sets) through "
+                "refine and simplify; TLC validates that the result has the value of the input at every assignment of "
+                "the environment set attached to the assumption set (all of whose assignments satisfy it)")
+    simple(ctx, "MC_C35", "Trace_Val", floor=0.3)
